@@ -357,12 +357,105 @@ def dependent_scenario(r, idx, dep):
             'WS': [0.45, 0.5876, 0.7], 'check_repro': True, 'dependent': dep}
 
 
+def asph_lens(r):
+    """aspheric singlet with r^4, r^6 (and r^8) terms of realistic size: nominal 1e-6, 1e-8, 1e-11"""
+    surfs = [{'type': 'even_asphere', 'radius': r.uniform(35, 55), 'conic': r.uniform(-0.8, 0.0),
+              'coefficients': [0.0, r.uniform(0.5, 2) * 1e-6 * r.choice([-1, 1]), r.uniform(0.5, 2) * 1e-8 * r.choice([-1, 1]),
+                               r.uniform(0.5, 2) * 1e-11], 'thickness': r.uniform(4, 6),
+              'material': r.choice([['ideal', r.uniform(1.5, 1.7), 0.0], ['glass', r.choice(GLASSES), 'schott']])},
+             {'radius': -r.uniform(150, 400), 'thickness': r.uniform(40, 70), 'material': 'air'}]
+    spec = _lens(surfs, waves=((r.choice(WAVES), True),))
+    spec['aperture'] = ['EPD', r.uniform(9, 12)]
+    return spec
+
+
+def tiny_scenario(r, idx, decade, htype):
+    """perturbation of relative (absolute when the nominal is 0) size 10^-decade around the nominal value; operands on
+    which the perturbation acts in first order (marginal real ray, spot size, focal length)"""
+    spec = asph_lens(r)
+    prim = spec['wavelengths'][0][0]
+    kw = {'surface_number': 1}
+    if htype == 'asphere_coeff':
+        kw['coeff_number'] = r.choice([1, 2, 2, 3])
+    elif htype == 'index':
+        kw['wavelength'] = prim
+        if spec['surfaces'][0]['material'][0] == 'glass':
+            spec['surfaces'][0]['material'] = ['ideal', r.uniform(1.5, 1.7), 0.0]   # keep D23 out of this class
+    elif htype in ('tilt', 'decenter'):
+        kw['axis'] = r.choice(['x', 'y'])
+    h = {'type': htype, 'kw': kw}
+    nom = nominal_of(spec, h)
+    m = 10.0 ** (-decade) * r.uniform(1, 5)
+    d = abs(nom) * m if nom != 0 else m
+    analysis = r.choice(['sens', 'mc'])
+    if analysis == 'sens':
+        sam = ['range', nom - d, nom + d * r.uniform(0.5, 1.0), r.choice([2, 3])]
+    else:
+        sam = r.choice([['uniform', nom - d, nom + d, r.randrange(0, 10 ** 6)], ['normal', nom, d / 2, r.randrange(0, 10 ** 6)],
+                        ['scalar', nom + d]])
+    ops = [['real_y_intercept', {'surface_number': -1, 'Hx': 0.0, 'Hy': 0.0, 'Px': 0.0, 'Py': 1.0, 'wavelength': prim}],
+           ['rms_spot_size', {'surface_number': -1, 'Hx': 0.0, 'Hy': 0.0, 'num_rays': 3, 'wavelength': prim,
+                              'distribution': 'hexapolar'}], ['f2', {}]]
+    return {'name': f'e{idx}-{htype}-1e-{decade}', 'lens': spec, 'pickups': [], 'solves': [], 'operands': ops,
+            'perts': [dict(h, sampler=sam)], 'comps': [], 'method': 'generic', 'tol': 1e-5, 'analysis': analysis,
+            'trials': 2 if analysis == 'mc' else None, 'WS': sorted({0.45, 0.7, prim}), 'check_repro': True,
+            'tiny': decade}
+
+
+HISTORIES = ['mc-then-sens', 'sens-twice', 'advance-then-sens', 'mc-twice', 'shared-sens', 'shared-mc']
+
+
+def history_scenario(r, idx, kind):
+    """several analyses / hand-advanced or shared samplers on ONE Tolerancing object; every row of every analysis is
+    replayed on a fresh nominal lens"""
+    spec = two_lens(r)
+    R1 = spec['surfaces'][0]['radius']
+    g = spec['surfaces'][1]['thickness']
+    n1, n2 = r.choice([3, 4, 5]), r.choice([3, 4])
+    perts = [{'type': 'radius', 'kw': {'surface_number': 1}, 'sampler': ['range', R1 * 0.97, R1 * 1.04, n1]},
+             {'type': 'thickness', 'kw': {'surface_number': 2}, 'sampler': ['range', g - 0.3, g + 0.2, n2]}]
+    comps = [{'type': 'radius', 'kw': {'surface_number': 4}}] if r.random() < 0.35 else []
+    sc = {'name': f'h{idx}-{kind}', 'lens': spec, 'pickups': [], 'solves': [], 'operands': [['f2', {}]], 'perts': perts,
+          'comps': comps, 'method': 'generic', 'tol': 1e-5, 'WS': [0.45, 0.5876, 0.7], 'check_repro': True, 'history_kind': kind}
+    k = r.choice([x for x in range(1, 7) if x % n1 and x % n2])       # leaves both samplers in mid-cycle
+    if kind == 'mc-then-sens':
+        sc['history'] = [['mc', k], ['sens']]
+    elif kind == 'sens-twice':
+        sc['history'] = [['sens'], ['sens']]
+    elif kind == 'advance-then-sens':
+        sc['history'] = [['advance', r.choice([0, 1]), r.choice([1, 2])], ['sens']]
+    elif kind == 'mc-twice':
+        sc['history'] = [['mc', k], ['mc', r.choice([1, 2, 3])]]
+    else:
+        # ONE RangeSampler object for both perturbations (values suit the radius; applied to the thickness of a
+        # thick surface they are still a valid prescription): radius of surface 1 and of surface 3
+        perts[1] = {'type': 'radius', 'kw': {'surface_number': 3}, 'sampler': perts[0]['sampler']}
+        sc['share'] = [[0, 1]]
+        sc['history'] = [['sens']] if kind == 'shared-sens' else [['mc', r.choice([2, 4, 5])]]
+    last = sc['history'][-1]
+    sc['analysis'] = last[0]
+    sc['trials'] = last[1] if last[0] == 'mc' else None
+    return sc
+
+
 def class_scenarios(ctx, seed_off=0):
     """the input classes every run (quick tier included) must exercise"""
     r = random.Random(ctx.seed * 104723 + 17 + seed_off)
     out = [bounded_scenario(r, i, k) for i, k in enumerate(BOUND_KINDS)]
     out += [dependent_scenario(r, i, k) for i, k in enumerate(DEP_KINDS)]
+    # perturbation magnitudes over the decades 1e-1 ... 1e-12 (two per handle type, one small and one very small; always a
+    # high-order aspheric coefficient ~1e-8 +- 1e-9 and an index +-1e-5)
+    out.append(tiny_scenario(r, 0, 1, 'asphere_coeff'))
+    out.append(tiny_scenario(r, 1, 5, 'index'))
+    types = ['asphere_coeff', 'index', 'radius', 'thickness', 'conic', 'tilt', 'decenter']
+    for i, t in enumerate(types):
+        out.append(tiny_scenario(r, 2 + i, r.choice([2, 3, 4, 6, 7, 8, 9, 10, 11, 12]), t))
+    # histories on one Tolerancing object
+    out += [history_scenario(r, i, k) for i, k in enumerate(HISTORIES)]
     if not ctx.quick():
+        for i in range(20, 80):
+            out.append(tiny_scenario(r, i, 1 + i % 12, types[i % 7]))
+            out.append(history_scenario(r, i, HISTORIES[i % 6]))
         for i in range(4, 24):
             out.append(bounded_scenario(r, i, BOUND_KINDS[i % 4]))
             out.append(dependent_scenario(r, i, DEP_KINDS[i % 3]))
@@ -478,8 +571,40 @@ def coq_body(sc, r):
     # the model follows the declared state of the tree: once finding mc-no-final-reset is flipped to fixed
     # (proposed_fixes/C15-mc-no-final-reset.diff applied) MonteCarlo.run is modelled by mc_run_fixed
     mc_open = any(k['id'] == 'mc-no-final-reset' for k in vlib.load_known_findings(PROP))
-    fn = ('mc_run' if mc_open else 'mc_run_fixed') if sc['analysis'] == 'mc' else 'sens_run'
-    L.append(f'Definition res := {fn} vg vs up evf drw pv cv traces s0.')
+    # history on ONE Tolerancing object: the machine state (lens, sampler indices, stream) is threaded through the steps
+    L.append("""Fixpoint adv (j n : nat) (s : st (O:=FOps) clens (list float) unit) : st (O:=FOps) clens (list float) unit :=
+  match n with
+  | O => s
+  | S n' => match nth_error (sams s) j with
+            | Some sm => match sample (O:=FOps) drw (rng s) sm with
+                         | Some (_, sm', g') => adv j n' (mkSt (lens s) (set_nth (sams s) j sm') g')
+                         | None => s end
+            | None => s end
+  end.""")
+    body = 'Some (s, rows, aok)'
+    pos = len(r['trials'])
+    steps = list(zip(history_of(sc), r['steps']))
+    defs = []
+    for k in range(len(steps) - 1, -1, -1):
+        st, info = steps[k]
+        if st[0] == 'advance':
+            body = f'let s := adv {st[1]}%nat {st[2]}%nat s in\n  {body}'
+            continue
+        n = info['n']
+        trs = r['trials'][pos - n:pos]
+        pos -= n
+        defs.append(f'Definition traces_{k} : list (list (list float)) := [' +
+                    ';\n  '.join('[' + '; '.join(fl(x) for x in tr['trace']) + ']' for tr in trs) + '].')
+        defs.append(f'Definition i_after_{k} : list float := {fl(snap_vec(info["after_run"]))}.')
+        fn = ('mc_run' if mc_open else 'mc_run_fixed') if st[0] == 'mc' else 'sens_run'
+        body = (f'match {fn} vg vs up evf drw pv cv traces_{k} s with None => None | Some (s, r) =>\n'
+                f'  let rows := rows ++ r in let aok := aok && close_list tolS (evf (lens s)) i_after_{k} in\n  {body} end')
+    tol_s = '0x1.12e0be826d695p-30' if sc['comps'] else '0x1.c25c268497682p-44'     # 1e-9 with compensators, 1e-13 without
+    L.append(f'Definition tolS := {tol_s}.')
+    L += defs
+    L.append('Definition res := let s := s0 in let rows : list (row (O:=FOps)) := [] in let aok := true in\n  ' + body + '.')
+    ana = [k for k, (st, info) in enumerate(steps) if st[0] != 'advance']
+    L.append('Definition p_steps_nominal := ' + ' && '.join(f'close_list tolS i_after_{k} i_nominal' for k in ana) + '.')
     # implementation data
     L.append('Definition i_states : list (list float) := [' + ';\n  '.join(fl(snap_vec(tr['snap'])) for tr in r['trials']) + '].')
     L.append('Definition i_values : list (list float) := [' + '; '.join(fl(tr['values']) for tr in r['trials']) + '].')
@@ -490,7 +615,6 @@ def coq_body(sc, r):
     L.append(f'Definition i_after_reset := {fl(snap_vec(r["after_reset"]))}.')
     L.append(f'Definition i_init : list float := {fl(r["pert_init"] + r["comp_init"])}.')
     L.append(r'''
-Definition tolS := 0x1.12e0be826d695p-30.   (* 1e-9 *)
 Definition tolV := 0x1.19799812dea11p-40.   (* 1e-12 *)
 Fixpoint all2 {A B} (f : A -> B -> bool) (a : list A) (b : list B) : bool :=
   match a, b with [] , [] => true | x :: a', y :: b' => f x y && all2 f a' b' | _, _ => false end.
@@ -500,15 +624,15 @@ Definition fresh_ok :=
           close_list tolS st (evf (fresh_lens vs up pv cv l0 w x tr)))
        i_states (combine (combine i_which i_values) traces).
 Definition checks : list bool :=
-  let p6 := close_list tolS i_after_run i_nominal in
+  let p6 := close_list tolS i_after_run i_nominal && p_steps_nominal in
   let p7 := close_list tolS i_after_reset i_nominal in
   match res with
   | None => [false; false; false; false; false; false; p6; p7; fresh_ok; false]
-  | Some (sf, rows) =>
+  | Some (sf, rows, aok) =>
     [ all2 (fun (rw : row (O:=FOps)) st => close_list tolS (r_ops rw) st) rows i_states;
       all2 (fun (rw : row (O:=FOps)) v => close_list tolV (r_pert rw) v) rows i_values && all2 (fun (rw : row (O:=FOps)) w => nat_list_eqb (r_which rw) w) rows i_which;
       all2 (fun (rw : row (O:=FOps)) c => close_list tolS (r_comp rw) c) rows i_comp;
-      close_list tolS (evf (lens sf)) i_after_run;
+      close_list tolS (evf (lens sf)) i_after_run && aok;
       close_list tolS (evf (treset vs up pv cv (lens sf))) i_after_reset;
       close_list tolV (map (@vinit _ _) (pv ++ cv)) i_init;
       p6; p7; fresh_ok;
@@ -637,12 +761,18 @@ def _close(a, b, tol):
     return abs(a - b) <= tol * (1 + abs(a) + abs(b))
 
 
+def history_of(sc):
+    return sc.get('history') or ([['mc', sc['trials']]] if sc['analysis'] == 'mc' else [['sens']])
+
+
 def _plan_which(sc):
-    if sc['analysis'] == 'mc':
-        return [list(range(len(sc['perts'])))] * sc['trials']
     out = []
-    for j, p in enumerate(sc['perts']):
-        out += [[j]] * (p['sampler'][3] if p['sampler'][0] == 'range' else 1)
+    for st in history_of(sc):
+        if st[0] == 'mc':
+            out += [list(range(len(sc['perts'])))] * st[1]
+        elif st[0] == 'sens':
+            for j, p in enumerate(sc['perts']):
+                out += [[j]] * (p['sampler'][3] if p['sampler'][0] == 'range' else 1)
     return out
 
 
@@ -659,8 +789,9 @@ def system_checks(ctx):
         if 'error' in r:
             errors.append({'scenario': sc, 'check': 'impl-raised', 'detail': r['error'], 'violates_property': False})
             continue
-        if sc.get('solves'):
-            continue        # solves are not in the Coq model: implementation-level clauses only (below)
+        if sc.get('solves') or sc.get('share'):
+            continue        # solves / one sampler object shared by two perturbations are not in the Coq model:
+                            # implementation-level clauses only (below)
         bodies.append(coq_body(sc, r))
         idx.append(i)
     cres = vlib.run_cases('c15', 'From OV Require Import Model.M_C15.', bodies) if bodies else []
@@ -673,10 +804,18 @@ def system_checks(ctx):
         # clauses stated directly on the implementation (all scenarios): limits respected, independent bounded
         # reference, to_dict() back at nominal; for lenses with solves also the prescription clauses
         keep = ('comp_bounds', 'bounded_reference', 'dict_run', 'dict_reset')
-        if sc.get('solves'):
+        if sc.get('solves') or sc.get('share'):
             keep = None
             n_solve += 1
+        if sc.get('solves'):
             hist['solve+comp' if sc['comps'] else 'solve'] = hist.get('solve+comp' if sc['comps'] else 'solve', 0) + 1
+        if sc.get('history_kind'):
+            hist['history:' + sc['history_kind']] = hist.get('history:' + sc['history_kind'], 0) + 1
+        if sc.get('tiny'):
+            k = f'perturbation-relative-size:1e-{sc["tiny"]:02d}'
+            hist[k] = hist.get(k, 0) + 1
+            res_ok = sum(1 for e in r.get('oracle', []) if e.get('resolved'))
+            hist['tiny-rows-resolved-above-rounding'] = hist.get('tiny-rows-resolved-above-rounding', 0) + res_ok
         for pw in python_level_checks(sc, r):
             if keep is None or pw['check'] in keep:
                 wit.append(pw)
